@@ -438,47 +438,51 @@ func init() {
 		},
 		"(reflect.Value).FieldByName": func(fr *frame, args []value) value {
 			t := rV2T(args[0]).t
-			st, ok := t.Underlying().(*types.Struct)
-			if !ok {
+			if _, ok := t.Underlying().(*types.Struct); !ok {
 				panic(targetPanic{iface{fr.i.runtimeErrorString, "reflect: call of reflect.Value.FieldByName on " + reflectKind(t).String() + " Value"}})
 			}
-			name := args[1].(string)
-			for i := 0; i < st.NumFields(); i++ {
-				if st.Field(i).Name() == name {
-					ro := rVRO(args[0]) || !st.Field(i).Exported()
-					if a := rV2A(args[0]); a != nil {
-						s := (*a).(structure)
-						r := makeReflectValueAddr(st.Field(i).Type(), &s[i]).(structure)
-						r[3] = ro
-						return r
-					}
-					r := makeReflectValue(st.Field(i).Type(), rV2V(args[0]).(structure)[i]).(structure)
-					r[3] = ro
-					return r
-				}
+			index := fieldPathByName(t, args[1].(string))
+			if index == nil {
+				return structure{rtype{nil}, nil, (*value)(nil), false}
 			}
-			return structure{rtype{nil}, nil, (*value)(nil), false}
+			return reflectFieldByIndex(fr, args[0], index)
 		},
 		"(reflect.rtype).FieldByName": func(fr *frame, args []value) value {
 			t := args[0].(rtype).t
-			st := t.Underlying().(*types.Struct)
 			name := args[1].(string)
 			sfT := fr.i.prog.ImportedPackage("reflect").Type("StructField").Type()
 			z := zero(sfT).(structure)
-			for i := 0; i < st.NumFields(); i++ {
-				if st.Field(i).Name() == name {
-					z[0] = name
-					if !st.Field(i).Exported() {
-						z[1] = st.Field(i).Pkg().Path()
+			index := fieldPathByName(t, name)
+			if index == nil {
+				return tuple{z, false}
+			}
+			ct := t
+			var st *types.Struct
+			for k, ix := range index {
+				if k > 0 {
+					if pt, ok := ct.Underlying().(*types.Pointer); ok {
+						ct = pt.Elem()
 					}
-					z[2] = makeReflectType(rtype{st.Field(i).Type()})
-					z[3] = st.Tag(i)
-					z[5] = []value{i} // Index
-					z[6] = st.Field(i).Anonymous()
-					return tuple{z, true}
+				}
+				st = ct.Underlying().(*types.Struct)
+				if k < len(index)-1 {
+					ct = st.Field(ix).Type()
 				}
 			}
-			return tuple{z, false}
+			i := index[len(index)-1]
+			z[0] = name
+			if !st.Field(i).Exported() {
+				z[1] = st.Field(i).Pkg().Path()
+			}
+			z[2] = makeReflectType(rtype{st.Field(i).Type()})
+			z[3] = st.Tag(i)
+			ixs := make([]value, len(index))
+			for k, ix := range index {
+				ixs[k] = ix
+			}
+			z[5] = ixs // Index
+			z[6] = st.Field(i).Anonymous()
+			return tuple{z, true}
 		},
 		"(reflect.rtype).Key": func(fr *frame, args []value) value {
 			return makeReflectType(rtype{args[0].(rtype).t.Underlying().(*types.Map).Key()})
@@ -1045,4 +1049,44 @@ func numError(fr *frame, fn, num string, native error) value {
 		st[2] = errVal(ne.Err.Error())
 	}
 	return iface{t: types.NewPointer(nt), v: &cell}
+}
+
+// fieldPathByName: the index path reflect's FieldByName resolves (direct fields first, then
+// promoted fields of embedded structs by depth; ambiguous names resolve to nothing).
+func fieldPathByName(t types.Type, name string) []int {
+	st, ok := t.Underlying().(*types.Struct)
+	if !ok {
+		return nil
+	}
+	var pkg *types.Package
+	for i := 0; i < st.NumFields() && pkg == nil; i++ {
+		pkg = st.Field(i).Pkg()
+	}
+	// direct fields match by name whatever their package (reflect compares names only)
+	for i := 0; i < st.NumFields(); i++ {
+		if st.Field(i).Name() == name {
+			return []int{i}
+		}
+	}
+	obj, index, _ := types.LookupFieldOrMethod(t, false, pkg, name)
+	if _, isVar := obj.(*types.Var); !isVar || obj == nil {
+		return nil
+	}
+	return index
+}
+
+// reflectFieldByIndex: reflect.Value.FieldByIndex, including the panic on a nil embedded pointer
+func reflectFieldByIndex(fr *frame, v value, index []int) value {
+	for k, ix := range index {
+		if k > 0 {
+			if _, isPtr := rV2T(v).t.Underlying().(*types.Pointer); isPtr {
+				if p, _ := rV2V(v).(*value); p == nil {
+					panic(targetPanic{iface{fr.i.runtimeErrorString, "reflect: indirection through nil pointer to embedded struct"}})
+				}
+				v = ext۰reflect۰Value۰Elem(fr, []value{v})
+			}
+		}
+		v = ext۰reflect۰Value۰Field(fr, []value{v, ix})
+	}
+	return v
 }
